@@ -97,6 +97,9 @@ def mkdirP (s : RealState) (cwd : APath) (p : PurePath) : RealState × Option Re
   if p.parts.any (· = dotdot) then (s, some .unmodelled)
   else
     let target := (if p.abs then [] else cwd) ++ p.parts
+    -- a symbolic link on the way: only link-free directory chains are modelled
+    if ((List.range (target.length + 1)).map (fun i => target.take i)).any (fun q => isLinkAt s.fs q) then (s, some .unmodelled)
+    else
     match missingPrefixes s.fs target with
     | none =>
       -- an existing prefix is not a directory: the last one gives FileExistsError, an inner one ENOTDIR
@@ -104,12 +107,19 @@ def mkdirP (s : RealState) (cwd : APath) (p : PurePath) : RealState × Option Re
                 else .os .ENOTDIR))
     | some todo => mkdirAll s todo
 
+/-- `os.path.exists(p)` relative to `cwd`: symbolic links are followed (a dangling link does not "exist") -/
+def existsFollowRel (fs : FS) (cwd : APath) (p : PurePath) : Bool :=
+  match resolvePath fs cwd p with
+  | .ok q => lexists fs q
+  | .error _ => false
+
 /-- `shutil.move(str(src), dst)` -/
 def shutilMove (s : RealState) (cwd : APath) (src dst : PurePath) : RealState × Option RenErr :=
   if isDirRel s.fs cwd dst then
     -- move *into* the directory
     let inner : PurePath := { dst with parts := dst.parts ++ [nameOf src] }
-    if lexistsRel s.fs cwd inner then (s, some .shutilError) else renameRel s cwd src inner
+    -- (`os.path.exists(real_dst)`: a dangling link inside the directory does not stop the move)
+    if existsFollowRel s.fs cwd inner then (s, some .shutilError) else renameRel s cwd src inner
   else renameRel s cwd src dst
 
 /-- `FileMover.__call__` -/
